@@ -33,6 +33,7 @@ CANON = {  # canonical dotted name -> handler suffix
 }
 
 TRUSTED = set()
+CALLED = set()          # repository functions whose contract was used at a call site (modular reasoning)
 
 
 def trusted(name):
@@ -426,6 +427,7 @@ class Lib:
         c = self.ctx.registry.contracts.get(rf.qualname)
         if c is None:
             raise EngineError("%s:L%d: callee %s has no contract" % (ex.fnname, node.lineno, rf.qualname))
+        CALLED.add(rf.qualname)
         mod = self.ctx.module(rf.module)
         fnode, cls = mod.functions[(rf.cls + "." if rf.cls else "") + rf.name]
         params = [a.arg for a in fnode.args.args]
@@ -664,6 +666,14 @@ class Lib:
             obj = obj.value
         if isinstance(obj, str):
             return self.str_method(ex, st, obj, name, args, kwargs, node)
+        if isinstance(obj, SetDefaultRef):
+            # d.setdefault(k, []).append(x): the list stored under k grows by x
+            if name != "append" or len(args) != 1:
+                raise EngineError("%s:L%d: only .append(x) is supported on the result of setdefault" % (ex.fnname, node.lineno))
+            d = ex.eval(obj.bm.base_node, st)
+            newd = ex.dict_store(d, obj.key, ex.seq_append(ex.as_seq(d.val(obj.key), st), args[0]))
+            self.writeback(ex, st, obj.bm, newd)
+            return None
         if isinstance(obj, tuple):
             obj = Seq.of(list(obj), "tuple")
         if isinstance(obj, Seq):
@@ -1156,7 +1166,13 @@ class Lib:
         st.assume(z3.ForAll(ks, mem(*ks) == z3.And(w >= 0, w < n, to_z3(values_equal(_askey(s.at(w)), k))), patterns=[mem(*ks)]))
         j = bvar("j")
         ej = _askey(s.at(j))
-        st.assume(z3.ForAll([j], z3.Implies(z3.And(j >= 0, j < n), mem(*key_terms(ej)))))
+        # trigger: the element itself when it is an uninterpreted application, else the smallest uninterpreted
+        # applications of j inside it (e.g. src(j) of a selection), so that a known position yields membership
+        pj = [t for t in key_terms(ej) if is_z3(t) and _valid_pattern(t)]
+        if not (pj and len(pj) == len(key_terms(ej))):
+            pj = _inner_patterns([t for t in key_terms(ej) if is_z3(t)], j)
+        st.assume(z3.ForAll([j], z3.Implies(z3.And(j >= 0, j < n), mem(*key_terms(ej))),
+                            **({"patterns": [pj[0]] if len(pj) == 1 else [z3.MultiPattern(*pj)]} if pj else {})))
         size = z3.Int(uid("setsize"))
         i2 = bvar("i")
         distinct = z3.ForAll([j, i2], z3.Implies(z3.And(j >= 0, j < i2, i2 < n), z3.Not(to_z3(values_equal(_askey(s.at(j)), _askey(s.at(i2)))))))
@@ -1189,7 +1205,9 @@ class Lib:
         j, j2, k = bvar("j"), bvar("j"), bvar("k")
         st.assume(m >= 0)
         st.assume(z3.ForAll([j], z3.Implies(z3.And(j >= 0, j < m), z3.And(to_z3(s.has(u(j))), pos(u(j)) == j)), patterns=[u(j)]))
-        st.assume(z3.ForAll([k], z3.Implies(to_z3(s.has(k)), z3.And(pos(k) >= 0, pos(k) < m, u(pos(k)) == k)), patterns=[pos(k)]))
+        hk = to_z3(s.has(k))
+        st.assume(z3.ForAll([k], z3.Implies(hk, z3.And(pos(k) >= 0, pos(k) < m, u(pos(k)) == k)),
+                            patterns=[pos(k)] + ([hk] if _valid_pattern(hk) else [])))
         st.assume(z3.ForAll([j, j2], z3.Implies(z3.And(j >= 0, j < j2, j2 < m), u(j) < u(j2)), patterns=[z3.MultiPattern(u(j), u(j2))]))
         return Seq(s.size, lambda i: u(to_z3(i)), "list")
 
@@ -1614,6 +1632,34 @@ class Lib:
 
     def b_dtype_float(self, ex, st, args, kwargs, node):
         return as_real(args[0])
+
+
+def _inner_patterns(terms, var):
+    """The minimal uninterpreted applications inside `terms` that mention `var` and are usable as a pattern."""
+    found = []
+
+    def mentions(x):
+        todo = [x]
+        while todo:
+            y = todo.pop()
+            if y.eq(var):
+                return True
+            if z3.is_app(y):
+                todo.extend(y.children())
+        return False
+
+    def walk(x):
+        if not z3.is_app(x) or not mentions(x):
+            return
+        kids = [c for c in x.children() if mentions(c) and not c.eq(var)]
+        inner_before = len(found)
+        for c in kids:
+            walk(c)
+        if len(found) == inner_before and _valid_pattern(x) and not any(x.eq(f) for f in found):
+            found.append(x)
+    for t in terms:
+        walk(t)
+    return found[:1]
 
 
 def _valid_pattern(t):
